@@ -373,7 +373,7 @@ def workdir(name):
 
 # ---------------------------------------------------------------- driver + trace validation
 
-def run_sweeps(variant, cmds, name, nproc=None, guard=False, env=None, timeout=1500, merge=True):
+def run_sweeps(variant, cmds, name, nproc=None, guard=False, env=None, timeout=5400, merge=True):
     """Distribute self-contained driver commands over ecdrive processes (work queue of chunks).
     Returns (list of event files, total events, total restarts-after-fault)."""
     bdir = build(variant)
@@ -458,7 +458,7 @@ class TraceVerdict:
         self.rejected = []  # files whose trace was not fully consumed
 
 
-def validate(module, files, cfg=None, env=None, timeout=1500, max_lines=60000, nproc=None):
+def validate(module, files, cfg=None, env=None, timeout=3600, max_lines=60000, nproc=None):
     """Validate ndjson traces with spec/<module>.tla, one single-worker TLC per shard, in parallel."""
     shards = []
     for f in files:
